@@ -37,9 +37,27 @@ theorem project_distributes (st : StructTable) (b : String) (m n : Nat) (path : 
   projPath_arr st path b m n xs
 
 /-- One projection step distributes through a typed map `map<b[k]>`. -/
-theorem project_distributes_map (b : String) (k : Nat) (f : String) (kvs : List (String × J)) :
+theorem project_distributes_map_step (b : String) (k : Nat) (f : String) (kvs : List (String × J)) :
     proj1 ⟨b, k+1, 0⟩ f (.obj kvs) = .obj (kvs.map fun kv => (kv.1, proj1 ⟨b, 0, k⟩ f kv.2)) :=
   proj1_obj b k f kvs
+
+/-- Projection along a path distributes through a typed map `map<b[k]>`: it is the
+map of the per-value projections at the element type `b[k]` — provided no field
+on the path is itself a typed map (the compiler rejects such programs:
+"invalid projection through nested maps"). -/
+theorem project_distributes_map (st : StructTable) (b : String) (k : Nat) (path : List String)
+    (kvs : List (String × J)) (h : NoMapFields st ⟨b, 0, k⟩ path) :
+    projPath st ⟨b, k+1, 0⟩ path (.obj kvs)
+      = .obj (kvs.map fun kv => (kv.1, projPath st ⟨b, 0, k⟩ path kv.2)) :=
+  projPath_obj st path b k kvs h
+
+/-- the hypothesis of `project_distributes_map` is satisfiable on a real path -/
+example : NoMapFields [("PAIR", [⟨"a", ⟨"int", 0, 0⟩⟩])] ⟨"PAIR", 0, 1⟩ ["a"] := by
+  refine ⟨?_, trivial⟩
+  intro ft h
+  simp [fieldTy] at h
+  subst h
+  rfl
 
 /-- A null intermediate projects to null (and `dnull` to `dnull`), whatever the type and path. -/
 theorem project_null (st : StructTable) (path : List String) :
